@@ -26,6 +26,7 @@ import ast
 from ..dataflow import is_shared
 from ..lifecycle import Lifecycle
 from ..repo import AnalysisError, FuncInfo, own_nodes
+from .common import reorder_ops
 
 MANIFEST = {
     "text": (
@@ -74,6 +75,7 @@ def run(ctx):
     chk, repo = ctx.chk, ctx.repo
     for rid, txt in (
         ("R14.a", "no write to an instance/operation attribute, instance.jobs, operation.machines or a cached derived view outside the instance's own constructors"),
+        ("R14.e", "Schedule.to_dict emits each machine's job ids in list order (no reordering other than a stable chronological sort)"),
         ("R14.b", "dictionary writers and readers agree on keys (to_dict <-> from_matrices / from_dict / benchmark loader)"),
         ("R14.c", "each iteration of from_job_sequences' loop dispatches at least once or raises ValidationError"),
         ("R14.d", "set_operation_attributes: job_id/position from enumeration, operation_id dense from 0 in job-major order"),
@@ -300,6 +302,19 @@ def _keys(ctx, inst):
         chk.ok("R14.b", sd.qualname, sd.loc(d2), f"keys {sorted(k2)} = from_dict parameters")
     else:
         chk.violation("R14.b", sd, d2, f"Schedule.to_dict keys {sorted(k2)} differ from from_dict's parameters {fd.params}", loc=sd.loc(d2))
+    # R14.e: the emitted job sequences keep the order of the machine lists
+    sdf = ctx.norm.flat(sd)
+    ops = list(reorder_ops(sdf.node))
+    for node, what in ops:
+        chk.violation(
+            "R14.e", sdf, node,
+            f"Schedule.to_dict reorders what it serialises ({what}): operations that tie on that key (zero "
+            "durations, same start) come out in another order than they were dispatched, and from_dict rebuilds a "
+            "different schedule",
+            loc=sdf.loc(node),
+        )
+    if not ops:
+        chk.ok("R14.e", sd.qualname, sd.loc(d2), "job sequences are emitted in machine-list order (no reordering operator)")
     loader = repo.find_function("load_benchmark_instance")
     read = {
         n.slice.value for n in own_nodes(loader.node)
